@@ -444,6 +444,7 @@ static inline int pbt_main(int argc, char** argv, const char* property_id, void*
 		else if (!strcmp(argv[i], "--only") && i + 1 < argc) R.only = argv[++i];
 		else if (!strcmp(argv[i], "--list")) { for (auto& t : targets()) printf("%s\n", t.name.c_str()); return 0; }
 	}
+	if (getenv("PBT_REGISTER_ONLY")) return 0;  // libFuzzer driver: targets are registered, nothing is run
 	if (replay) {
 		std::string tn; std::vector<uint64_t> ch;
 		if (!read_replay(replay, &tn, &ch)) { fprintf(stderr, "cannot read replay %s\n", replay); return 2; }
